@@ -198,4 +198,17 @@ InvalidTexts(fs) ==
 \* components that must have a struct: named complex types, named simple types, anonymous-typed global elements
 StructComps(S) == {c \in TypesOf(S) : TRUE} \cup {e \in ElemsOf(S) : "inline" \in DOMAIN e.it}
 BodyOf(c) == IF c.k = "element" THEN c.it.inline ELSE c.it
+
+---------------------------------------------------------------------------
+(* By-value containment: the struct of a contains the struct of b when a has a member of b's type that is not      *)
+(* repeated (T or Option<T>; the items of a Vec live on the heap).  A cycle of such edges is a type that contains  *)
+(* itself - legal in XSD (a list node with an optional `next`), impossible as a plain Rust struct.                  *)
+StructOfTarget(S, t) == {x \in StructComps(S) : t.k = "struct" /\ x.ns = t.ns /\ x.n = t.n}
+Contains(S, a) ==
+  IF a.k = "simple" THEN {}
+  ELSE LET ms == ExpFields(S, FileNamed(S, a.f), a.it, BodyOf(a)) IN
+       UNION {StructOfTarget(S, ms[i].target) : i \in {j \in 1..Len(ms) : ms[j].w # "Vec"}}
+RECURSIVE ContainsN(_, _, _)
+ContainsN(S, X, n) == IF n = 0 THEN X ELSE ContainsN(S, X \cup UNION {Contains(S, x) : x \in X}, n - 1)
+ByValueCycle(S) == \E a \in StructComps(S) : a \in ContainsN(S, Contains(S, a), Cardinality(StructComps(S)))
 =======================================================================
